@@ -243,6 +243,7 @@ func (w *world) emitMeta() string {
 func (w *world) emitShim() string {
 	var sb strings.Builder
 	sb.WriteString("//go:build verif\n\n// GENERATED by /verif/tools/cmd/go2lean; injected with `go build -overlay`, never written under /repo.\npackage provider\n\n// VerifExports gives the correspondence harness access to unexported helpers.\nvar VerifExports = map[string]interface{}{\n")
+	emitted := map[string]bool{}
 	for _, spec := range whitelist {
 		f := w.funcs[spec.key()]
 		if f.failed != "" && f.decl == nil {
@@ -258,8 +259,12 @@ func (w *world) emitShim() string {
 			continue
 		}
 		fmt.Fprintf(&sb, "\t%q: %s,\n", spec.Name, spec.Name)
+		emitted[spec.Name] = true
 	}
 	for _, name := range shimExtra {
+		if emitted[name] {
+			continue
+		}
 		if p := w.pkgs["pkg/provider"]; p != nil {
 			if obj := p.Types.Scope().Lookup(name); obj != nil {
 				if _, ok := obj.Type().(*types.Signature); ok {
